@@ -778,7 +778,9 @@ func genID(t *rapid.T, label string) string {
 	return rapid.SampledFrom(idAlphabet).Draw(t, label) + fmt.Sprintf("-%d", rapid.IntRange(0, 999).Draw(t, label+"n"))
 }
 
-var relayStates = []string{A, "", "rs-plain", strings.Repeat("r", 79), strings.Repeat("é", 40), strings.Repeat("r", 81), strings.Repeat("r", 255), strings.Repeat("r", 256), strings.Repeat("r", 1024), "https://sp.example/return?a=1&b=2", "x y+z%20", "<script>alert(1)</script>", "\"quoted\" 'single'", "ünï€𝄞", "token=abc==", strings.Repeat("r", 80)}
+var relayStates = []string{A, "", "rs-plain", strings.Repeat("r", 79), strings.Repeat("é", 40), strings.Repeat("r", 81), strings.Repeat("r", 255), strings.Repeat("r", 256), strings.Repeat("r", 1024), "https://sp.example/return?a=1&b=2", "x y+z%20", "<script>alert(1)</script>", "\"quoted\" 'single'", "ünï€𝄞", "token=abc==", strings.Repeat("r", 80),
+	// white space at the ends is part of the value
+	" lead", "trail ", " both ", "line-end\n", "\ttab-lead", "crlf-end\r\n"}
 
 // genValidAuthn draws a request the statement of C06/C07 deems valid for SP sp of spec.
 func genValidAuthn(t *rapid.T, spec world.Spec, sp int, host string) spsim.AuthnReq {
